@@ -9,10 +9,13 @@ SyntaxFaults == {"dangling-operator", "empty-if", "stray-endfor", "unterminated-
 Hosts == {"entry", "included", "parent-block", "child-block-with-super", "parent-block-via-super", "component", "component-via-include",
           "included-in-filter-section", "included-in-set-block", "included-in-component-call-body", "included-twice-nested", "component-in-capture", "included-in-loop"}
 Prefixes == {"none", "ascii", "two-byte", "three-byte", "four-byte", "line2", "line3-multibyte"}
+\* delimiter sets: the default one, and one whose six delimiters are single 2-byte characters (columns count characters,
+\* ranges count bytes: the two must still designate the same position)
+Delims == {"default", "one-char-2-byte"}
 VARIABLES mode, v, i
-Init == \/ mode = "plant" /\ i = 0 /\ v \in [fault : RenderFaults, host : Hosts, prefix : Prefixes, syntax : {FALSE}]
-        \/ mode = "plant" /\ i = 0 /\ v \in [fault : SyntaxFaults, host : {"entry", "included", "parent-block", "component"}, prefix : Prefixes, syntax : {TRUE}]
-        \/ mode = "obs" /\ i \in 1..Len(Obs) /\ v = [fault |-> "", host |-> "", prefix |-> "", syntax |-> FALSE]
+Init == \/ mode = "plant" /\ i = 0 /\ v \in [fault : RenderFaults, host : Hosts, prefix : Prefixes, syntax : {FALSE}, delims : Delims]
+        \/ mode = "plant" /\ i = 0 /\ v \in [fault : SyntaxFaults, host : {"entry", "included", "parent-block", "component"}, prefix : Prefixes, syntax : {TRUE}, delims : Delims]
+        \/ mode = "obs" /\ i \in 1..Len(Obs) /\ v = [fault |-> "", host |-> "", prefix |-> "", syntax |-> FALSE, delims |-> ""]
 Next == UNCHANGED <<mode, v, i>>
 Emit == mode = "plant" => PrintT(<<"VEC", ToJson(v)>>)
 InvConsistent == mode = "obs" => Consistent(Obs[i])
